@@ -132,6 +132,14 @@ TakeBatch(ts, key, max, adm) ==
     /\ tip' = [t \in DOMAIN tip \cup adm |-> IF t \in adm THEN key ELSE tip[t]]
     /\ UNCHANGED <<now, idx>>
 
+\* the responses of the transactions ts, one after the other (compact form of |ts| Release steps)
+ReleaseBatch(ts) ==
+    \E S \in SUBSET UNION {Of(t) : t \in ts} :
+        /\ \A t \in ts : ReleaseOK(t, S \cap Of(t))
+        /\ slots' = slots \ S
+        /\ tip' = [t \in DOMAIN tip \ ts |-> tip[t]]
+        /\ UNCHANGED <<now, idx>>
+
 -------------------------------------------------------------------------------
 \* account_orchestration (A1, A2): out = position (0-based) in the round_robin list of length k
 PickOK(k, out) == k > 0 /\ out = idx % k
